@@ -37,68 +37,68 @@ def run(ck):
                     return s, S, Nb, r, args
 
                 paths = paths_of(prog, th, sticky=True, stubs={"NeuralStateBase.positive_phase_gradients": stub_ppg})
-                p = single(paths, inst)
-                shape_err_verdict(ck, "C06.R1", inst, paths)
-                it = p.interp
-                s, S, Nb, r, args = p.value
-                nets = state_networks(it, s)
-                items = it.concrete_items(r)
-                ck.check(items is not None and len(items) == len(nets), "C06.R1", inst + ":one gradient per network", msite, "result is not a list with one gradient per network")
-                if items is None or len(items) != len(nets):
-                    continue
-                ppg = [c for c in p.calls if c[0] == "NeuralStateBase.positive_phase_gradients"]
-                ck.check(len(ppg) == 1, "C06.R1", inst + ":positive phase computed once", msite, "positive_phase_gradients is called %d times" % len(ppg))
-                if len(ppg) == 1:
-                    env = ppg[0][5]
-                    sb = env.get("samples_batch")
-                    ck.check(isinstance(sb, VTens) and sb.obj is S.obj, "C06.R1", inst + ":positive phase of the data batch", msite, "the positive phase is not computed on samples_batch")
-                    bb = env.get("bases_batch")
-                    if with_bases:
-                        ck.check(isinstance(bb, VTens) and bb.term == T.sym("bases"), "C06.R1", inst + ":bases forwarded", msite, "bases_batch is not forwarded to the positive phase")
+                for p in returning(paths, inst):
+                    shape_err_verdict(ck, "C06.R1", inst, paths)
+                    it = p.interp
+                    s, S, Nb, r, args = p.value
+                    nets = state_networks(it, s)
+                    items = it.concrete_items(r)
+                    ck.check(items is not None and len(items) == len(nets), "C06.R1", inst + ":one gradient per network", msite, "result is not a list with one gradient per network")
+                    if items is None or len(items) != len(nets):
+                        continue
+                    ppg = [c for c in p.calls if c[0] == "NeuralStateBase.positive_phase_gradients"]
+                    ck.check(len(ppg) == 1, "C06.R1", inst + ":positive phase computed once", msite, "positive_phase_gradients is called %d times" % len(ppg))
+                    if len(ppg) == 1:
+                        env = ppg[0][5]
+                        sb = env.get("samples_batch")
+                        ck.check(isinstance(sb, VTens) and sb.obj is S.obj, "C06.R1", inst + ":positive phase of the data batch", msite, "the positive phase is not computed on samples_batch")
+                        bb = env.get("bases_batch")
+                        if with_bases:
+                            ck.check(isinstance(bb, VTens) and bb.term == T.sym("bases"), "C06.R1", inst + ":bases forwarded", msite, "bases_batch is not forwarded to the positive phase")
+                        else:
+                            ck.check(isinstance(bb, VConst) and bb.value is None, "C06.R1", inst + ":no bases", msite, "a bases argument appears although none was given")
+                    gs = [c for c in p.calls if c[0].endswith(".gibbs_steps")]
+                    eg = [c for c in p.calls if c[0].endswith(".effective_energy_gradient")]
+                    ck.check(len(gs) == 1 and len(eg) == 1, "C06.R1", inst + ":one negative chain evaluation", msite, "gibbs_steps / effective_energy_gradient called %d / %d times" % (len(gs), len(eg)))
+                    if len(gs) != 1 or len(eg) != 1:
+                        continue
+                    genv = gs[0][5]
+                    am = it.get_attr(s, "rbm_am", None)
+                    ck.check(genv.get("self").inst is am.inst, "C06.R1", inst + ":chains run on the amplitude network", msite, "the negative phase does not use rbm_am")
+                    ck.check(num_term(genv.get("k")) == T.sym("k"), "C06.R1", inst + ":k Gibbs steps", msite, "gibbs_steps receives k = %r" % (num_term(genv.get("k")),))
+                    ist = genv.get("initial_state")
+                    ck.check(isinstance(ist, VTens) and ist.obj is Nb.obj, "C06.R1", inst + ":chains start from the negative batch", msite, "the chains do not start from neg_batch")
+                    ow = genv.get("overwrite")
+                    ck.check(isinstance(ow, VConst) and ow.value is False, "C06.R1", inst + ":negative batch not overwritten", msite, "gibbs_steps may overwrite the negative batch")
+                    vk = gs[0][4]
+                    ev = eg[0][5].get("v")
+                    ck.check(isinstance(ev, VTens) and isinstance(vk, VTens) and ev.obj is vk.obj, "C06.R1", inst + ":model gradient at the chain end", msite, "effective_energy_gradient is not evaluated on the k-step chain states")
+                    ck.check(eg[0][5].get("self").inst is am.inst, "C06.R1", inst + ":model gradient of the amplitude network", msite, "the model gradient is not taken from rbm_am")
+                    red = eg[0][5].get("reduce")
+                    ck.check(isinstance(red, VConst) and red.value is True, "C06.R1", inst + ":summed model gradient", msite, "the model gradient is not the batch sum")
+                    gm = eg[0][6]
+                    P0 = T.sym("P_rbm_am")
+                    want0 = P0 - gm * T.inv(T.sym("Bn")) if gm is not None else None
+                    got0 = items[0].term
+                    if want0 is None or got0 is None:
+                        ck.undecided("C06.R1", inst + ":amplitude update", msite, "no term")
+                    elif got0 == want0:
+                        ck.ok("C06.R1", inst + ":amplitude update = positive - model/neg_batch_size", msite, update=got0)
                     else:
-                        ck.check(isinstance(bb, VConst) and bb.value is None, "C06.R1", inst + ":no bases", msite, "a bases argument appears although none was given")
-                gs = [c for c in p.calls if c[0].endswith(".gibbs_steps")]
-                eg = [c for c in p.calls if c[0].endswith(".effective_energy_gradient")]
-                ck.check(len(gs) == 1 and len(eg) == 1, "C06.R1", inst + ":one negative chain evaluation", msite, "gibbs_steps / effective_energy_gradient called %d / %d times" % (len(gs), len(eg)))
-                if len(gs) != 1 or len(eg) != 1:
-                    continue
-                genv = gs[0][5]
-                am = it.get_attr(s, "rbm_am", None)
-                ck.check(genv.get("self").inst is am.inst, "C06.R1", inst + ":chains run on the amplitude network", msite, "the negative phase does not use rbm_am")
-                ck.check(num_term(genv.get("k")) == T.sym("k"), "C06.R1", inst + ":k Gibbs steps", msite, "gibbs_steps receives k = %r" % (num_term(genv.get("k")),))
-                ist = genv.get("initial_state")
-                ck.check(isinstance(ist, VTens) and ist.obj is Nb.obj, "C06.R1", inst + ":chains start from the negative batch", msite, "the chains do not start from neg_batch")
-                ow = genv.get("overwrite")
-                ck.check(isinstance(ow, VConst) and ow.value is False, "C06.R1", inst + ":negative batch not overwritten", msite, "gibbs_steps may overwrite the negative batch")
-                vk = gs[0][4]
-                ev = eg[0][5].get("v")
-                ck.check(isinstance(ev, VTens) and isinstance(vk, VTens) and ev.obj is vk.obj, "C06.R1", inst + ":model gradient at the chain end", msite, "effective_energy_gradient is not evaluated on the k-step chain states")
-                ck.check(eg[0][5].get("self").inst is am.inst, "C06.R1", inst + ":model gradient of the amplitude network", msite, "the model gradient is not taken from rbm_am")
-                red = eg[0][5].get("reduce")
-                ck.check(isinstance(red, VConst) and red.value is True, "C06.R1", inst + ":summed model gradient", msite, "the model gradient is not the batch sum")
-                gm = eg[0][6]
-                P0 = T.sym("P_rbm_am")
-                want0 = P0 - gm * T.inv(T.sym("Bn")) if gm is not None else None
-                got0 = items[0].term
-                if want0 is None or got0 is None:
-                    ck.undecided("C06.R1", inst + ":amplitude update", msite, "no term")
-                elif got0 == want0:
-                    ck.ok("C06.R1", inst + ":amplitude update = positive - model/neg_batch_size", msite, update=got0)
-                else:
-                    d = lin_diff(got0, want0)
-                    if d[0] == "unknown":
-                        if got0 == P0 + gm * T.inv(T.sym("Bn")):
-                            d = ("coeff", "model gradient", "+1/Bn", "-1/Bn")
-                        elif got0 == P0 - gm * T.inv(T.sym("Bs")):
-                            d = ("dep-extra", ["Bs (divided by the positive batch size)"])
-                        elif got0 == P0 - gm:
-                            d = ("dep-missing", ["Bn (not divided by the negative batch size)"])
-                        elif got0 == P0:
-                            d = ("dep-missing", ["the negative phase"])
-                    ck.check(diff_verdict(d), "C06.R1", inst + ":amplitude update = positive - model/neg_batch_size", msite, "amplitude gradient: " + diff_msg(d), got=got0, want=want0)
-                if len(items) > 1:
-                    ck.check(items[1].term == T.sym("P_rbm_ph"), "C06.R1", inst + ":phase network gets the positive phase only", msite,
-                             "the phase gradient is %r; expected the positive phase unchanged" % (items[1].term,))
+                        d = lin_diff(got0, want0)
+                        if d[0] == "unknown":
+                            if got0 == P0 + gm * T.inv(T.sym("Bn")):
+                                d = ("coeff", "model gradient", "+1/Bn", "-1/Bn")
+                            elif got0 == P0 - gm * T.inv(T.sym("Bs")):
+                                d = ("dep-extra", ["Bs (divided by the positive batch size)"])
+                            elif got0 == P0 - gm:
+                                d = ("dep-missing", ["Bn (not divided by the negative batch size)"])
+                            elif got0 == P0:
+                                d = ("dep-missing", ["the negative phase"])
+                        ck.check(diff_verdict(d), "C06.R1", inst + ":amplitude update = positive - model/neg_batch_size", msite, "amplitude gradient: " + diff_msg(d), got=got0, want=want0)
+                    if len(items) > 1:
+                        ck.check(items[1].term == T.sym("P_rbm_ph"), "C06.R1", inst + ":phase network gets the positive phase only", msite,
+                                 "the phase gradient is %r; expected the positive phase unchanged" % (items[1].term,))
     # ------------------------------------------------------------------ R2-R4 order inside fit
     fit = prog.method("NeuralStateBase", "fit")
     fsite = fit.site()
@@ -232,22 +232,22 @@ def run(ck):
                 it.call_function(VFunc(vf), [vec, ps], {}, None)
                 return m
 
-            p = single(paths_of(prog, thv), inst)
-            it = p.interp
-            off = T.ZERO
-            vec = T.sym("vec")
-            for n, q in module_params(it, p.value):
-                numel = dim_size(("flat", tuple(q.shape))) if len(q.shape) > 1 else dim_size(q.shape[0])
-                g = q.obj.grad
-                want = T.app("view", T.app("index", vec, (("slice", _c0(off), _c0(off + numel), None),)), tuple(str(d) for d in q.shape))
-                gt = g.term if isinstance(g, VTens) else None
-                if gt == want:
-                    ck.ok("C06.R5", "%s:%s <- vec[%r : %r]" % (inst, n, off, off + numel), vf.site())
-                else:
-                    ck.check(False if gt is not None and "vec" in gt.syms() else None, "C06.R5", "%s:%s slice" % (inst, n), vf.site(),
-                             ".grad of %s is %r; expected vec[%r : %r] reshaped to the parameter's shape" % (n, gt, off, off + numel))
-                ck.check(isinstance(g, VTens) and g.shape == q.shape, "C06.R5", "%s:%s shape" % (inst, n), vf.site(), ".grad of %s has shape %s, parameter has %s" % (n, getattr(g, "shape", None), q.shape))
-                off = off + numel
+            for p in returning(paths_of(prog, thv), inst):
+                it = p.interp
+                off = T.ZERO
+                vec = T.sym("vec")
+                for n, q in module_params(it, p.value):
+                    numel = dim_size(("flat", tuple(q.shape))) if len(q.shape) > 1 else dim_size(q.shape[0])
+                    g = q.obj.grad
+                    want = T.app("view", T.app("index", vec, (("slice", _c0(off), _c0(off + numel), None),)), tuple(str(d) for d in q.shape))
+                    gt = g.term if isinstance(g, VTens) else None
+                    if gt == want:
+                        ck.ok("C06.R5", "%s:%s <- vec[%r : %r]" % (inst, n, off, off + numel), vf.site())
+                    else:
+                        ck.check(False if gt is not None and "vec" in gt.syms() else None, "C06.R5", "%s:%s slice" % (inst, n), vf.site(),
+                                 ".grad of %s is %r; expected vec[%r : %r] reshaped to the parameter's shape" % (n, gt, off, off + numel))
+                    ck.check(isinstance(g, VTens) and g.shape == q.shape, "C06.R5", "%s:%s shape" % (inst, n), vf.site(), ".grad of %s has shape %s, parameter has %s" % (n, getattr(g, "shape", None), q.shape))
+                    off = off + numel
     ck.require_min("C06.R1", 40)
     ck.require_min("C06.R2", 10)
     ck.require_min("C06.R3", 12)
